@@ -243,7 +243,7 @@ def _t1(ctx: Context) -> None:
                 for n in cfg.nodes:
                     if n.kind == "return" and n.exprs:
                         check_term(m, n, strip_sites(T.of(cfg, n, n.exprs[0])), f"value returned by {m.name}")
-    ck.require_min("C02.T1", "taint sinks (digest arguments, byte getters, attribute writers)", sinks, 20)
+    ck.require_min("C02.T1", "taint sinks (digest arguments, byte getters, attribute writers)", sinks, 10)
 
 
 # ---------------------------------------------------------------------- T2
